@@ -814,6 +814,30 @@ def rule_highest(ctx):
     probs.append("the maximum is never raised")
   start = vis["pre_env"].get(acc[0])
   rets = [t_ for t_ in w.terminals if t_[0] == "return"]
+  # what is handed back: the maximum when an entry raised it, None when it still has its start value; the start value must lie below every severity
+  after = vis["after_env"].get(acc[0])
+  s0 = as_poly(start).as_int() if isinstance(start, (Poly, int)) else None
+  if s0 is None or s0 >= 0:
+    probs.append("the running maximum starts at %r, which is not below every severity (severities are >= 0)" % (start,))
+  for kind, val, st_ in rets:
+    okr = False
+    va = val.as_atom() if isinstance(val, Poly) else None
+    if va is not None and va.kind == "ite" and len(va.args) == 3 and isinstance(after, Poly):
+      cnd = sym.ITE_CONDS.get(as_poly(va.args[0]).as_atom().args[0]) if as_poly(va.args[0]).as_atom() is not None else None
+      thn, els = as_poly(va.args[1]), va.args[2]
+      if isinstance(cnd, tuple) and cnd[0] == "cmp" and isinstance(cnd[2], Poly) and cnd[2] == after and s0 is not None and as_poly(cnd[3]).as_int() == s0:
+        if cnd[1] == "NotEq" and thn == after and repr(els) == "lit('None')":
+          okr = True
+        if cnd[1] == "Eq" and repr(as_poly(va.args[1])) == "lit('None')" and as_poly(els) == after:
+          okr = True
+        if cnd[1] in ("Gt", "GtE") and thn == after and repr(els) == "lit('None')" and cnd[1] == "Gt":
+          okr = True
+    elif isinstance(after, Poly) and isinstance(val, Poly) and val == after:
+      okr = any(fc[0] == "cmp" and fc[1] in ("NotEq", "Gt") and isinstance(fc[2], Poly) and fc[2] == after and s0 is not None and as_poly(fc[3]).as_int() == s0 for fc in st_.facts)
+    elif isinstance(val, Const) and val.v is None:
+      okr = any(fc[0] == "cmp" and fc[1] in ("Eq", "LtE") and isinstance(fc[2], Poly) and isinstance(after, Poly) and fc[2] == after and s0 is not None and as_poly(fc[3]).as_int() == s0 for fc in st_.facts)
+    if not okr:
+      probs.append("the value handed back is %r, not `maximum if it was raised above its start value else None`" % (val,))
   ctx.record(R, f.where, "highest severity among the positive entries", not probs, "; ".join(sorted(set(probs))) or
              "max over entries with result set, of their severity (start %r)" % (start,))
 
